@@ -142,8 +142,10 @@ def run_words(ctx, rnd, words, thumb, per_task=None):
     return groups, res
 
 
-def check_cube_class(res):
-    """the class the emulator executed is the class the partition predicted for the word's cube"""
+def check_cube_class(res, ctx=None):
+    """the class the emulator executed is the class a pure decode of the same word selects (the partition's class for the
+    word's cube; the partition itself is cross-checked against the untracked decoder in partition()).  A difference means
+    that decode depended on something other than the word - a violation of the property, reported as such."""
     bad = []
     for g, e, v in res:
         m = g.meta.get(e['id'], {})
@@ -152,8 +154,12 @@ def check_cube_class(res):
             continue
         if e['cls'] != exp:
             bad.append((hex(m['word']), exp, e['cls']))
-    if bad:
-        raise MachineryError('cube partition is unsound: executed class differs from the cube class: %s' % bad[:5])
+            if ctx is not None:
+                ctx.judge(exp, ['decode-class'], dict(tags_of(g, e, v), executed=e['cls']),
+                          {'group': g.name, 'cfg': g.cfg, 'header': g.header(), 'event': e, 'all_clauses': v['v'], 'expected_class': exp},
+                          what='word %s decodes to %s on a fresh decoder but was executed as %s' % (hex(m['word']), exp, e['cls']))
+    if bad and ctx is None:
+        raise MachineryError('executed class differs from the cube class: %s' % bad[:5])
 
 
 def partition(which, rnd, nsample):
